@@ -196,6 +196,110 @@ def return_paths(fi):
     return withv, bare, fall
 
 
+def path_summaries(fi, max_paths=200):
+    """Loop-free functions only: [(facts, returned term)] over all entry-to-return paths, with plain locals substituted by the
+    terms assigned to them along the path (temporaries, merged / split returns and branch order do not matter).  `facts` is the
+    frozenset of branch literals of the path, themselves substituted.  Returns None if the function has a loop, too many paths,
+    or a construct that cannot be followed (augmented assignment to an unknown name is kept opaque)."""
+    from .cfg import cfg_of
+    from .terms import Terms, negate
+    c = cfg_of(fi)
+    tm = Terms(fi.node, max_depth=0)
+    if any(n.kind == "for" or (n.kind == "join" and isinstance(n.stmt, ast.While)) for n in c.nodes):
+        return None
+    out = []
+
+    def sub(t, env):
+        if isinstance(t, tuple) and len(t) == 2 and t[0] == "n" and t[1] in env:
+            return env[t[1]]
+        if isinstance(t, tuple):
+            return tuple(sub(x, env) for x in t)
+        return t
+
+    def walk(n, env, facts, depth):
+        if len(out) > max_paths or depth > 400:
+            raise OverflowError
+        if n.kind == "stmt" and n.ast is not None:
+            st = n.ast
+            if isinstance(st, ast.Return):
+                out.append((frozenset(facts), sub(tm.term(st.value), env) if st.value is not None else ("c", "None")))
+                return
+            if isinstance(st, ast.Assign) and len(st.targets) == 1 and isinstance(st.targets[0], ast.Name):
+                env = dict(env)
+                env[st.targets[0].id] = sub(tm.term(st.value), env)
+            elif isinstance(st, ast.AugAssign) and isinstance(st.target, ast.Name):
+                env = dict(env)
+                opn = type(st.op).__name__
+                cur = env.get(st.target.id, ("n", st.target.id))
+                env[st.target.id] = ("op", opn, (cur, sub(tm.term(st.value), env)))
+            elif isinstance(st, ast.Assign):
+                for tg in st.targets:
+                    for x in ast.walk(tg):
+                        if isinstance(x, ast.Name) and isinstance(x.ctx, ast.Store) and x.id in env:
+                            env = dict(env)
+                            env.pop(x.id)
+        for (sx, lab) in n.succ:
+            if lab == "exc":
+                continue
+            f2 = facts
+            if n.kind == "test" and lab in (True, False):
+                lit = sub(tm.term(n.ast), env)
+                f2 = facts | {lit if lab else negate(lit)}
+            if sx.kind in ("exit", "raise"):
+                if sx.kind == "exit" and not (n.kind == "stmt" and isinstance(n.ast, ast.Return)):
+                    out.append((frozenset(f2), ("<falls-off>",)))
+                continue
+            walk(sx, env, f2, depth + 1)
+    try:
+        walk(c.entry, {}, frozenset(), 0)
+    except (OverflowError, RecursionError):
+        return None
+    return out
+
+
+def _negated_in_test(test_node):
+    """True if the CFG test node stands under an odd number of `not` operators inside the test expression of its statement."""
+    n = 0
+    x = test_node.ast
+    stop = test_node.stmt
+    while x is not None and x is not stop:
+        par = getattr(x, "_parent", None)
+        if isinstance(par, ast.UnaryOp) and isinstance(par.op, ast.Not):
+            n += 1
+        x = par
+    return n % 2 == 1
+
+
+def trailing_true_conjunctions(fi, target, tm, within=None, limit=64):
+    """The alternatives under which control reaches CFG node `target`, each as the set of literals (branch tests taken on the edge
+    that makes the literal true; `not t` contributes the negated term) that hold immediately before it (walking backwards until a False edge, a non-test node or the loop head).  `if A and B: X` gives {A, B};
+    `if (A and B) or C: X` gives {A, B} and {C}; two consecutive `if A: X` / `if C: X'` give {A} for X and {C} for X'.
+    Terms are value terms of the tests; join nodes are passed through."""
+    out = set()
+
+    def back(n, acc, depth):
+        if depth > limit:
+            out.add(frozenset(acc))
+            return
+        extended = False
+        for (p, lab) in n.pred:
+            if p.kind == "join":
+                back(p, acc, depth + 1)
+                extended = True
+            elif p.kind == "test" and lab in (True, False) and lab is (not _negated_in_test(p)) and (within is None or within(p)):
+                from .terms import negate
+                lit = tm.term(p.ast)
+                back(p, acc | {lit if lab is True else negate(lit)}, depth + 1)
+                extended = True
+            else:
+                out.add(frozenset(acc))
+                extended = True
+        if not extended:
+            out.add(frozenset(acc))
+    back(target, frozenset(), 0)
+    return {x for x in out if x}
+
+
 def iterations(funcnode):
     """Every iteration construct of a function: for loops and comprehension generators, as (iter ast, target ast, [nodes iterated over],
     the construct).  Lets a rule accept `for d in R: f(d)` and `[f(d) for d in R]` alike."""
